@@ -61,8 +61,9 @@ func (r *partReader) Read(p []byte) (int, error) {
 }
 
 type frameResult struct {
-	frames [][]byte
-	err    string
+	frames  [][]byte
+	err     string
+	changed string // a frame whose bytes changed after later reads (frames are held by the consumer while the stream is drained)
 }
 
 func (a frameResult) equal(b frameResult) bool {
@@ -85,12 +86,22 @@ func frameAll(data []byte, cuts []int, mode, zeroAt int) (res frameResult, panic
 	}()
 	rd := &partReader{data: data, cuts: cuts, mode: mode, zeroAt: zeroAt}
 	p := quickfix.VerifNewParser(rd)
+	var held []*bytes.Buffer
+	defer func() {
+		// the frames as the consumer sees them once the stream is drained
+		for i, h := range held {
+			if i < len(res.frames) && !bytes.Equal(h.Bytes(), res.frames[i]) && res.changed == "" {
+				res.changed = fmt.Sprintf("frame %d was %q when returned and is %q after the later reads", i, fixscan.Pretty(res.frames[i]), fixscan.Pretty(h.Bytes()))
+			}
+		}
+	}()
 	for i := 0; i < len(data)+8; i++ {
 		b, err := p.ReadMessage()
 		if err != nil {
 			res.err = err.Error()
 			return
 		}
+		held = append(held, b)
 		res.frames = append(res.frames, append([]byte{}, b.Bytes()...))
 	}
 	res.err = "(frame budget exceeded)"
@@ -189,6 +200,9 @@ func c12Run(data []byte, expected [][]byte, cuts []int, mode, zeroAt int, ref *f
 	res, pan := frameAll(data, cuts, mode, zeroAt)
 	if pan != "" {
 		return "C12/panic", pan
+	}
+	if res.changed != "" {
+		return "C12/F-frame-changed-after-return", res.changed
 	}
 	if !ref.equal(res) {
 		return "C12/D-chunking-changed-result", fmt.Sprintf("cuts %v mode %d: %d frames err=%q; single read: %d frames err=%q", cuts, mode, len(res.frames), res.err, len(ref.frames), ref.err)
